@@ -588,6 +588,7 @@ theorem readBody_succ (fuel : Nat) (out : List UInt8) (need : Nat) (s : Src) :
         (need - (s.src.take (want need s.sched)).length) ⟨s.src.drop (want need s.sched), s.sched.tail⟩ := by
   rw [readBody]
   simp only [osRead_eq]
+  rfl
 
 theorem readBody_spec : ∀ (fuel : Nat) (out : List UInt8) (need : Nat) (s : Src), need < fuel →
     (need ≤ s.src.length → ∃ sched', readBody fuel out need s
@@ -667,10 +668,10 @@ def ReadPost (spec : SpecRes) (res : ReadRes) : Prop :=
   | .record r R' => ∃ ov' s', res = .record r ov' s' ∧ ov' ++ s'.src = R'
 
 theorem read_spec (ov : List UInt8) (s : Src) (R : List UInt8) (hR : ov ++ s.src = R) :
-    ReadPost (readSpec R) (read ov s) := by
+    ReadPost (readSpec R) (PV.Warc.read ov s) := by
   have hp := headerLine_spec (s.src.length + 2) ov 0 s R hR (Nat.le_refl _)
   unfold LinePost at hp
-  unfold read readSpec
+  unfold PV.Warc.read readSpec
   cases hspec : specLine R 0 with
   | none =>
     rw [hspec] at hp
@@ -722,15 +723,16 @@ theorem read_spec (ov : List UInt8) (s : Src) (R : List UInt8) (hR : ov ++ s.src
             rw [eb, if_neg (by omega)]
             simp only []
             have htk : R.take (c2 + n + 4) = out2 ++ s2.src.take (c2 + n + 4 - out2.length) := by
-              rw [← hR2, List.take_append, List.take_of_length_le (by omega)]
+              have hd : out2.take (c2 + n + 4) = out2 := List.take_of_length_le (by omega)
+              rw [← hR2, List.take_append, hd]
             rw [htk]
             by_cases hterm : ((out2 ++ s2.src.take (c2 + n + 4 - out2.length)).drop (c2 + n + 4 - 4)
                 != [13, 10, 13, 10]) = true
             · rw [if_pos hterm, if_pos hterm]; exact rfl
             · rw [if_neg hterm, if_neg hterm]
               refine ⟨_, _, rfl, ?_⟩
-              rw [← hR2, List.drop_append, List.drop_of_length_le (by omega)]
-              simp
+              have hd : out2.drop (c2 + n + 4) = [] := List.drop_of_length_le (by omega)
+              rw [← hR2, List.drop_append, hd]
           · rw [b2 (by omega), if_pos (by omega)]
             exact rfl
 
@@ -747,7 +749,7 @@ def readAllSpec : Nat → List UInt8 → List (List UInt8) × Option Err
       (r :: rs, e)
 
 theorem readAll_spec : ∀ (fuel : Nat) (ov : List UInt8) (s : Src) (R : List UInt8), ov ++ s.src = R →
-    readAll fuel ov s = readAllSpec fuel R := by
+    PV.Warc.readAll fuel ov s = readAllSpec fuel R := by
   intro fuel
   induction fuel with
   | zero => intro _ _ _ _; rfl
@@ -755,7 +757,7 @@ theorem readAll_spec : ∀ (fuel : Nat) (ov : List UInt8) (s : Src) (R : List UI
     intro ov s R hR
     have hp := read_spec ov s R hR
     unfold ReadPost at hp
-    rw [readAll, readAllSpec]
+    rw [PV.Warc.readAll, readAllSpec]
     cases hs : readSpec R with
     | eof => rw [hs] at hp; simp only [] at hp; rw [hp]
     | error e => rw [hs] at hp; simp only [] at hp; rw [hp]
@@ -770,5 +772,894 @@ theorem records_eq (input : List UInt8) (sched : List Nat) :
     records input sched = readAllSpec (input.length + 1) input := by
   unfold records
   exact readAll_spec _ [] ⟨input, sched⟩ input (by simp)
+
+
+/-! ## tiling and record shape -/
+
+theorem hlSpec_mono : ∀ (fuel : Nat) (line R : List UInt8) (c : Nat) (len : Option Nat) (n c2 : Nat),
+    hlSpec fuel line R c len = .ok (n, c2) → c ≤ c2 := by
+  intro fuel
+  induction fuel with
+  | zero => intro line R c len n c2 h; exact absurd h (by simp [hlSpec])
+  | succ fuel ih =>
+    intro line R c len n c2 h
+    rw [hlSpec_succ] at h
+    split at h
+    · split at h
+      · exact absurd h (by simp)
+      · injection h with h; injection h with h1 h2; omega
+    · split at h
+      · rename_i l le c' hs
+        obtain ⟨_, a2, _, _, _⟩ := specLine_some _ _ _ _ _ hs
+        split at h
+        · split at h
+          · exact absurd h (by simp)
+          · split at h
+            · exact absurd h (by simp)
+            · have := ih _ _ _ _ _ _ h; omega
+        · have := ih _ _ _ _ _ _ h; omega
+      · exact absurd h (by simp)
+
+theorem readSpec_eof (R : List UInt8) (h : readSpec R = .eof) : R = [] := by
+  unfold readSpec at h
+  split at h
+  · split at h
+    · rename_i hE; simpa using hE
+    · exact absurd h (by simp)
+  · split at h
+    · exact absurd h (by simp)
+    · split at h
+      · exact absurd h (by simp)
+      · simp only [] at h
+        split at h
+        · exact absurd h (by simp)
+        · split at h <;> exact absurd h (by simp)
+
+theorem readSpec_record (R r R' : List UInt8) (h : readSpec R = .record r R') :
+    R = r ++ R' ∧ 4 ≤ r.length ∧ "WARC/1.0".toUTF8.toList <+: r ∧ [13, 10, 13, 10] <:+ r := by
+  unfold readSpec at h
+  split at h
+  · split at h <;> exact absurd h (by simp)
+  · rename_i l le c hs
+    split at h
+    · exact absurd h (by simp)
+    · rename_i hv
+      split at h
+      · exact absurd h (by simp)
+      · rename_i n c2 hh
+        simp only [] at h
+        split at h
+        · exact absurd h (by simp)
+        · rename_i hlen
+          split at h
+          · exact absurd h (by simp)
+          · rename_i hterm
+            injection h with h1 h2
+            subst h1 h2
+            have hmono := hlSpec_mono _ _ _ _ _ _ _ hh
+            obtain ⟨a1, a2, a3, a4, t, _, hp⟩ := specLine_some _ _ _ _ _ hs
+            have hlv : l = "WARC/1.0".toUTF8.toList := by simpa using hv
+            have hterm' : (R.take (c2 + n + 4)).drop (c2 + n + 4 - 4) = [13, 10, 13, 10] := by
+              simpa using hterm
+            refine ⟨(List.take_append_drop _ _).symm, ?_, ?_, ?_⟩
+            · rw [List.length_take]; omega
+            · rw [← hlv]
+              have hp1 : l <+: R := by
+                obtain ⟨Q, hQ⟩ := hp
+                exact ⟨[t] ++ Q, by simpa using hQ⟩
+              have hp2 : R.take (c2 + n + 4) <+: R := List.take_prefix _ _
+              apply List.prefix_of_prefix_length_le hp1 hp2
+              rw [List.length_take]; omega
+            · refine ⟨(R.take (c2 + n + 4)).take (c2 + n + 4 - 4), ?_⟩
+              rw [← hterm', List.take_append_drop]
+
+theorem readAllSpec_succ (fuel : Nat) (R : List UInt8) :
+    readAllSpec (fuel + 1) R =
+      match readSpec R with
+      | .eof => ([], none)
+      | .error e => ([], some e)
+      | .record r R' => (r :: (readAllSpec fuel R').1, (readAllSpec fuel R').2) := rfl
+
+theorem readAllSpec_tile : ∀ (fuel : Nat) (R : List UInt8),
+    (readAllSpec fuel R).1.flatten <+: R ∧
+    (R.length < fuel → (readAllSpec fuel R).2 = none → (readAllSpec fuel R).1.flatten = R) := by
+  intro fuel
+  induction fuel with
+  | zero => intro R; exact ⟨by simp [readAllSpec], fun h => by omega⟩
+  | succ fuel ih =>
+    intro R
+    rw [readAllSpec_succ]
+    cases hs : readSpec R with
+    | eof =>
+      simp only []
+      have := readSpec_eof R hs
+      subst this
+      simp
+    | error e => simp
+    | record r R' =>
+      simp only []
+      obtain ⟨h1, h2, _, _⟩ := readSpec_record R r R' hs
+      obtain ⟨i1, i2⟩ := ih R'
+      constructor
+      · rw [List.flatten_cons, h1]
+        exact (List.prefix_append_right_inj r).mpr i1
+      · intro hl hn
+        rw [List.flatten_cons, i2 (by rw [h1, List.length_append] at hl; omega) hn, ← h1]
+
+theorem readAllSpec_shape : ∀ (fuel : Nat) (R : List UInt8), ∀ r ∈ (readAllSpec fuel R).1,
+    "WARC/1.0".toUTF8.toList <+: r ∧ [13, 10, 13, 10] <:+ r := by
+  intro fuel
+  induction fuel with
+  | zero => intro R r hr; simp [readAllSpec] at hr
+  | succ fuel ih =>
+    intro R r hr
+    rw [readAllSpec_succ] at hr
+    cases hs : readSpec R with
+    | eof => rw [hs] at hr; simp at hr
+    | error e => rw [hs] at hr; simp at hr
+    | record r0 R' =>
+      rw [hs] at hr
+      simp only [List.mem_cons] at hr
+      rcases hr with rfl | hr
+      · obtain ⟨_, _, h3, h4⟩ := readSpec_record R r R' hs
+        exact ⟨h3, h4⟩
+      · exact ih R' r hr
+
+
+/-! ## decimal strings as bytes -/
+
+theorem ba_toList_loop (bs : ByteArray) : ∀ (k i : Nat) (r : List UInt8), bs.size - i = k →
+    ByteArray.toList.loop bs i r = r.reverse ++ bs.data.toList.drop i := by
+  have hsz : bs.data.toList.length = bs.size := by rw [Array.length_toList]; rfl
+  intro k
+  induction k with
+  | zero =>
+    intro i r h
+    rw [ByteArray.toList.loop]
+    have : ¬ i < bs.size := by omega
+    rw [if_neg this]
+    have : bs.data.toList.drop i = [] := List.drop_of_length_le (by omega)
+    rw [this]; simp
+  | succ k ih =>
+    intro i r h
+    rw [ByteArray.toList.loop]
+    have hi : i < bs.size := by omega
+    rw [if_pos hi, ih (i+1) _ (by omega)]
+    have hi' : i < bs.data.toList.length := by omega
+    rw [List.drop_eq_getElem_cons hi']
+    have : bs.get! i = bs.data.toList[i] := by
+      cases bs with
+      | mk d =>
+        show d[i]! = _
+        have : i < d.size := by simpa using hi'
+        simp [getElem!_pos, this]
+    rw [this]
+    simp
+
+theorem ba_toList (bs : ByteArray) : bs.toList = bs.data.toList := by
+  unfold ByteArray.toList
+  rw [ba_toList_loop bs _ 0 [] rfl]
+  simp
+
+def digitByte (c : Char) : UInt8 := c.val.toUInt8
+
+theorem utf8_digits : ∀ (cs : List Char), (∀ c ∈ cs, c.isDigit = true) →
+    cs.utf8Encode.data.toList = cs.map digitByte := by
+  intro cs
+  induction cs with
+  | nil => intro _; simp
+  | cons c cs ih =>
+    intro h
+    rw [List.utf8Encode_cons, ByteArray.toList_data_append, ih (fun x hx => h x (by simp [hx]))]
+    have hc := h c (by simp)
+    have h1 : c.utf8Size = 1 := by
+      rw [Char.utf8Size_eq_one_iff]
+      simp only [Char.isDigit, ge_iff_le, Bool.and_eq_true, decide_eq_true_eq, UInt32.le_iff_toNat_le] at hc ⊢
+      have h2 : ('9' : Char).val.toNat = 57 := by decide
+      rw [h2] at hc
+      have : (127 : UInt32).toNat = 127 := by decide
+      omega
+    rw [List.utf8Encode_singleton, String.utf8EncodeChar_eq_singleton h1]
+    simp [digitByte]
+
+theorem digitByte_toNat (c : Char) (h : c.isDigit = true) :
+    (digitByte c).toNat = c.toNat ∧ 48 ≤ c.toNat ∧ c.toNat ≤ 57 := by
+  simp only [Char.isDigit, ge_iff_le, Bool.and_eq_true, decide_eq_true_eq, UInt32.le_iff_toNat_le] at h
+  have h1 : ('0' : Char).val.toNat = 48 := by decide
+  have h2 : ('9' : Char).val.toNat = 57 := by decide
+  rw [h1, h2] at h
+  unfold digitByte Char.toNat
+  rw [UInt32.toNat_toUInt8]
+  omega
+
+theorem isDigit_iff (b : UInt8) : isDigit b = true ↔ 48 ≤ b.toNat ∧ b.toNat ≤ 57 := by
+  unfold isDigit
+  simp [UInt8.le_iff_toNat_le]
+
+def natBytes (n : Nat) : List UInt8 := (toString n).toUTF8.toList
+
+theorem natBytes_eq (n : Nat) : natBytes n = (Nat.toDigits 10 n).map digitByte := by
+  unfold natBytes
+  rw [ba_toList, String.toUTF8_eq_toByteArray, ← String.utf8Encode_toList]
+  have : (toString n).toList = Nat.toDigits 10 n := by simp
+  rw [this]
+  exact utf8_digits _ (fun c hc => Nat.isDigit_of_mem_toDigits (by decide) (by decide) hc)
+
+theorem natBytes_ne_nil (n : Nat) : natBytes n ≠ [] := by
+  rw [natBytes_eq]; simp
+
+theorem natBytes_digit (n : Nat) : ∀ d ∈ natBytes n, isDigit d = true := by
+  intro d hd
+  rw [natBytes_eq, List.mem_map] at hd
+  obtain ⟨c, hc, rfl⟩ := hd
+  have := digitByte_toNat c (Nat.isDigit_of_mem_toDigits (by decide) (by decide) hc)
+  rw [isDigit_iff]; omega
+
+theorem foldl_digits : ∀ (cs : List Char) (init : Nat), (∀ c ∈ cs, c.isDigit = true) →
+    (cs.map digitByte).foldl (fun a c => a * 10 + (c.toNat - 48)) init = Nat.ofDigitChars 10 cs init := by
+  intro cs
+  induction cs with
+  | nil => intro init _; simp [Nat.ofDigitChars]
+  | cons c cs ih =>
+    intro init h
+    rw [List.map_cons, List.foldl_cons, Nat.ofDigitChars_cons, ih _ (fun x hx => h x (by simp [hx]))]
+    have := digitByte_toNat c (h c (by simp))
+    have h0 : ('0' : Char).toNat = 48 := by decide
+    rw [this.1, h0, Nat.mul_comm]
+
+theorem natBytes_val (n : Nat) : (natBytes n).foldl (fun a c => a * 10 + (c.toNat - 48)) 0 = n := by
+  rw [natBytes_eq, foldl_digits _ _ (fun c hc => Nat.isDigit_of_mem_toDigits (by decide) (by decide) hc)]
+  exact Nat.ofDigitChars_ten_toDigits
+
+
+/-! ## computing the specification on concrete shapes -/
+
+theorem digit_facts (d : UInt8) (h : isDigit d = true) :
+    isSpace d = false ∧ d ≠ 45 ∧ d ≠ 43 ∧ d ≠ 10 ∧ d ≠ 13 := by
+  rw [isDigit_iff] at h
+  refine ⟨?_, ?_, ?_, ?_, ?_⟩
+  · unfold isSpace
+    simp only [UInt8.le_iff_toNat_le, Bool.or_eq_false_iff, beq_eq_false_iff_ne, ne_eq,
+      Bool.and_eq_false_iff, decide_eq_false_iff_not, ← UInt8.toNat_inj]
+    have : (32 : UInt8).toNat = 32 := rfl
+    have : (9 : UInt8).toNat = 9 := rfl
+    have : (13 : UInt8).toNat = 13 := rfl
+    omega
+  all_goals (intro e; subst e; revert h; decide)
+
+theorem scan_digits (ds : List UInt8) (t : UInt8) (Q : List UInt8) (hne : ds ≠ [])
+    (hd : ∀ d ∈ ds, isDigit d = true) (ht : isDigit t = false) :
+    scan (32 :: (ds ++ t :: Q)) = (valOf false ds, 1 + ds.length, true) := by
+  obtain ⟨d, ds', rfl⟩ := List.exists_cons_of_ne_nil hne
+  obtain ⟨f1, f2, f3, _, _⟩ := digit_facts d (hd d (by simp))
+  have hws : (32 :: (d :: ds' ++ t :: Q)).takeWhile isSpace = [32] := by
+    have : isSpace 32 = true := by decide
+    simp [f1, this]
+  have htw : (d :: ds' ++ t :: Q).takeWhile isDigit = d :: ds' := tw_stop _ _ _ _ hd ht
+  have hs : sign (d :: ds' ++ t :: Q) = (false, 0) := by
+    rw [List.cons_append, sign_cons]; simp [f2, f3]
+  unfold scan
+  simp only [hws, List.length_singleton, List.drop_succ_cons, List.drop_zero, hs, htw]
+  simp
+
+theorem scan_neg (ds : List UInt8) (t : UInt8) (Q : List UInt8) (hne : ds ≠ [])
+    (hd : ∀ d ∈ ds, isDigit d = true) (ht : isDigit t = false) :
+    scan (32 :: 45 :: (ds ++ t :: Q)) = (valOf true ds, 2 + ds.length, true) := by
+  have hws : (32 :: 45 :: (ds ++ t :: Q)).takeWhile isSpace = [32] := by
+    have h1 : isSpace 32 = true := by decide
+    have h2 : isSpace 45 = false := by decide
+    simp [h1, h2]
+  have htw : (ds ++ t :: Q).takeWhile isDigit = ds := tw_stop _ _ _ _ hd ht
+  have hs : sign (45 :: (ds ++ t :: Q)) = (true, 1) := by
+    rw [sign_cons]; simp
+  unfold scan
+  simp only [hws, List.length_singleton, List.drop_succ_cons, List.drop_zero, hs, htw]
+  cases ds with
+  | nil => exact absurd rfl hne
+  | cons a b => simp
+
+theorem valOf_false_nonneg (ds : List UInt8) : 0 ≤ valOf false ds := by
+  unfold valOf
+  simp only [Bool.false_eq_true, if_false]
+  split <;> omega
+
+theorem valOf_false_toNat (ds : List UInt8) (n : Nat)
+    (h : ds.foldl (fun a c => a * 10 + (c.toNat - 48)) 0 = n) (hn : n < 2 ^ 63) :
+    (valOf false ds).toNat = n := by
+  unfold valOf
+  simp only [Bool.false_eq_true, if_false, h]
+  rw [if_neg (by omega)]
+  simp
+
+theorem valOf_true_neg (ds : List UInt8) (n : Nat)
+    (h : ds.foldl (fun a c => a * 10 + (c.toNat - 48)) 0 = n) (hn : 0 < n) :
+    valOf true ds < 0 := by
+  unfold valOf
+  simp only [if_true, h]
+  split <;> omega
+
+/-- a 15-byte key that matches `content-length:` case-insensitively -/
+def IsKey (K : List UInt8) : Prop :=
+  K.length = 15 ∧ K.map toLowerByte = contentLengthKey ∧ (10 : UInt8) ∉ K
+
+theorem isCL_key (K rest : List UInt8) (hK : IsKey K) : isCL (K ++ rest) = true := by
+  obtain ⟨h1, h2, _⟩ := hK
+  unfold isCL
+  rw [List.take_left' h1, h2]
+  simp; omega
+
+theorem lenVerdict_digits (X K ds : List UInt8) (c : Nat) (hK : IsKey K) (hne : ds ≠ [])
+    (hd : ∀ d ∈ ds, isDigit d = true) (hX : (K ++ 32 :: ds) ++ [13] <+: X.drop c) :
+    lenVerdict X (K ++ 32 :: ds) (c + (K ++ 32 :: ds).length) = some (valOf false ds).toNat := by
+  have hl : 15 ≤ (K ++ 32 :: ds).length := by simp [hK.1]
+  rw [lenVerdict_of_prefix X _ c 13 (Or.inl rfl) hl hX, List.drop_left' hK.1]
+  have : 32 :: ds ++ [13] = 32 :: (ds ++ 13 :: []) := by simp
+  rw [this, scan_digits ds 13 [] hne hd (by decide)]
+  unfold verdict
+  have hnn := valOf_false_nonneg ds
+  have e : (c + 15 + (1 + ds.length) != c + (K ++ 32 :: ds).length) = false := by
+    simp [hK.1]; omega
+  simp only [e, Bool.false_and, Bool.false_eq_true, if_false, Bool.not_true, Bool.or_false]
+  rw [if_neg (by simp; omega)]
+
+theorem lenVerdict_neg (X K ds : List UInt8) (c : Nat) (hK : IsKey K) (hne : ds ≠ [])
+    (hd : ∀ d ∈ ds, isDigit d = true) (hv : valOf true ds < 0)
+    (hX : (K ++ 32 :: 45 :: ds) ++ [13] <+: X.drop c) :
+    lenVerdict X (K ++ 32 :: 45 :: ds) (c + (K ++ 32 :: 45 :: ds).length) = none := by
+  have hl : 15 ≤ (K ++ 32 :: 45 :: ds).length := by simp [hK.1]
+  rw [lenVerdict_of_prefix X _ c 13 (Or.inl rfl) hl hX, List.drop_left' hK.1]
+  have : 32 :: 45 :: ds ++ [13] = 32 :: 45 :: (ds ++ 13 :: []) := by simp
+  rw [this, scan_neg ds 13 [] hne hd (by decide)]
+  unfold verdict
+  have e : (c + 15 + (2 + ds.length) != c + (K ++ 32 :: 45 :: ds).length) = false := by
+    simp [hK.1]; omega
+  simp only [e, Bool.false_and, Bool.false_eq_true, if_false, Bool.not_true, Bool.or_false]
+  rw [if_pos (by simpa using hv)]
+
+
+
+theorem specLine_crlf (R : List UInt8) (c : Nat) (h D : List UInt8) (hR : R.drop c = h ++ 13 :: 10 :: D)
+    (h10 : (10 : UInt8) ∉ h) : specLine R c = some (h, c + h.length, c + (h.length + 2)) := by
+  unfold specLine; rw [hR, specLine0_crlf h D h10]
+
+theorem drop_add_of_drop (R : List UInt8) (c : Nat) (A D : List UInt8) (hR : R.drop c = A ++ D) :
+    R.drop (c + A.length) = D := by
+  rw [← List.drop_drop, hR, List.drop_left]
+
+theorem isCL_nil : isCL [] = false := by decide
+
+theorem hlSpec_plain (fuel : Nat) (line R : List UInt8) (c : Nat) (len : Option Nat) (h D : List UInt8)
+    (hline : line.isEmpty = false) (hR : R.drop c = h ++ 13 :: 10 :: D) (h10 : (10 : UInt8) ∉ h)
+    (hcl : isCL h = false) :
+    hlSpec (fuel + 1) line R c len = hlSpec fuel h R (c + (h.length + 2)) len := by
+  rw [hlSpec_succ, hline, specLine_crlf R c h D hR h10]
+  simp [hcl]
+
+theorem flat_length_ge (hs : List (List UInt8)) : hs.length ≤ (hs.flatMap (· ++ [13, 10])).length := by
+  induction hs with
+  | nil => simp
+  | cons h hs ih => simp only [List.flatMap_cons, List.length_append, List.length_cons]; omega
+
+theorem hlSpec_headers : ∀ (hs : List (List UInt8)) (fuel : Nat) (line R : List UInt8) (c : Nat)
+    (len : Option Nat) (D : List UInt8),
+    line.isEmpty = false → R.drop c = hs.flatMap (· ++ [13, 10]) ++ D →
+    (∀ h ∈ hs, h ≠ [] ∧ (10 : UInt8) ∉ h ∧ isCL h = false) →
+    ∃ line', line'.isEmpty = false ∧
+      hlSpec (fuel + hs.length) line R c len
+        = hlSpec fuel line' R (c + (hs.flatMap (· ++ [13, 10])).length) len := by
+  intro hs
+  induction hs with
+  | nil => intro fuel line R c len D hl _ _; exact ⟨line, hl, by simp⟩
+  | cons h hs ih =>
+    intro fuel line R c len D hl hR hok
+    obtain ⟨o1, o2, o3⟩ := hok h (by simp)
+    have hR' : R.drop c = h ++ 13 :: 10 :: (hs.flatMap (· ++ [13, 10]) ++ D) := by
+      rw [hR]; simp
+    have hstep := hlSpec_plain (fuel + hs.length) line R c len h _ hl hR' o2 o3
+    have hR2 : R.drop (c + (h.length + 2)) = hs.flatMap (· ++ [13, 10]) ++ D := by
+      have := drop_add_of_drop R c (h ++ [13, 10]) (hs.flatMap (· ++ [13, 10]) ++ D) (by rw [hR]; simp)
+      simpa using this
+    have hne : h.isEmpty = false := by cases h with
+      | nil => exact absurd rfl o1
+      | cons _ _ => rfl
+    obtain ⟨line', l1, l2⟩ := ih fuel h R (c + (h.length + 2)) len D hne hR2
+      (fun x hx => hok x (by simp [hx]))
+    refine ⟨line', l1, ?_⟩
+    have e1 : fuel + (h :: hs).length = fuel + hs.length + 1 := by simp; omega
+    rw [e1, hstep, l2]
+    congr 1
+    simp; omega
+
+theorem key_line_no10 (K rest : List UInt8) (hK : IsKey K) (hr : (10 : UInt8) ∉ rest) :
+    (10 : UInt8) ∉ K ++ rest := by
+  intro h
+  rcases List.mem_append.mp h with h | h
+  · exact hK.2.2 h
+  · exact hr h
+
+theorem digits_no10 (pre ds : List UInt8) (hp : (10 : UInt8) ∉ pre) (hd : ∀ d ∈ ds, isDigit d = true) :
+    (10 : UInt8) ∉ pre ++ ds := by
+  intro h
+  rcases List.mem_append.mp h with h | h
+  · exact hp h
+  · exact (digit_facts 10 (hd 10 h)).2.2.2.1 rfl
+
+theorem hlSpec_cl (fuel : Nat) (line R : List UInt8) (c : Nat) (K ds D : List UInt8)
+    (hline : line.isEmpty = false) (hK : IsKey K) (hne : ds ≠ []) (hd : ∀ d ∈ ds, isDigit d = true)
+    (hR : R.drop c = (K ++ 32 :: ds) ++ 13 :: 10 :: D) :
+    hlSpec (fuel + 1) line R c none
+      = hlSpec fuel (K ++ 32 :: ds) R (c + ((K ++ 32 :: ds).length + 2)) (some (valOf false ds).toNat) := by
+  have h10 : (10 : UInt8) ∉ K ++ 32 :: ds := by
+    apply key_line_no10 K _ hK
+    have := digits_no10 [32] ds (by decide) hd
+    simpa using this
+  rw [hlSpec_succ, hline, specLine_crlf R c _ D hR h10]
+  simp only [Bool.false_eq_true, if_false]
+  rw [if_pos (isCL_key K _ hK)]
+  rw [lenVerdict_digits R K ds c hK hne hd (by rw [hR]; exact ⟨10 :: D, by simp⟩)]
+  simp
+
+theorem hlSpec_dup (fuel : Nat) (line R : List UInt8) (c m : Nat) (K rest D : List UInt8)
+    (hline : line.isEmpty = false) (hK : IsKey K) (h10 : (10 : UInt8) ∉ rest)
+    (hR : R.drop c = (K ++ rest) ++ 13 :: 10 :: D) :
+    hlSpec (fuel + 1) line R c (some m) = .error .twoLengths := by
+  rw [hlSpec_succ, hline, specLine_crlf R c _ D hR (key_line_no10 K rest hK h10)]
+  simp only [Bool.false_eq_true, if_false]
+  rw [if_pos (isCL_key K _ hK)]
+  simp
+
+theorem hlSpec_neg (fuel : Nat) (line R : List UInt8) (c : Nat) (K ds D : List UInt8)
+    (hline : line.isEmpty = false) (hK : IsKey K) (hne : ds ≠ []) (hd : ∀ d ∈ ds, isDigit d = true)
+    (hv : valOf true ds < 0)
+    (hR : R.drop c = (K ++ 32 :: 45 :: ds) ++ 13 :: 10 :: D) :
+    hlSpec (fuel + 1) line R c none = .error .lengthParse := by
+  have h10 : (10 : UInt8) ∉ K ++ 32 :: 45 :: ds := by
+    apply key_line_no10 K _ hK
+    have := digits_no10 [32, 45] ds (by decide) hd
+    simpa using this
+  rw [hlSpec_succ, hline, specLine_crlf R c _ D hR h10]
+  simp only [Bool.false_eq_true, if_false]
+  rw [if_pos (isCL_key K _ hK)]
+  rw [lenVerdict_neg R K ds c hK hne hd hv (by rw [hR]; exact ⟨10 :: D, by simp⟩)]
+  simp
+
+theorem hlSpec_blank (fuel : Nat) (line R : List UInt8) (c : Nat) (len : Option Nat) (D : List UInt8)
+    (hline : line.isEmpty = false) (hR : R.drop c = 13 :: 10 :: D) :
+    hlSpec (fuel + 2) line R c len =
+      match len with
+      | none => .error .noLength
+      | some n => .ok (n, c + 2) := by
+  rw [hlSpec_plain (fuel + 1) line R c len [] D hline (by simpa using hR) (by simp) isCL_nil]
+  rw [hlSpec_succ]
+  simp only [List.isEmpty_nil, if_true, List.length_nil, Nat.zero_add]
+
+
+
+theorem ver_eq : "WARC/1.0".toUTF8.toList = [87, 65, 82, 67, 47, 49, 46, 48] := by decide +kernel
+
+theorem specLine_version (D : List UInt8) :
+    specLine ("WARC/1.0".toUTF8.toList ++ 13 :: 10 :: D) 0 = some ("WARC/1.0".toUTF8.toList, 8, 10) := by
+  have := specLine_crlf ("WARC/1.0".toUTF8.toList ++ 13 :: 10 :: D) 0 "WARC/1.0".toUTF8.toList D rfl
+    (by rw [ver_eq]; decide)
+  rw [this, ver_eq]; rfl
+
+theorem readSpec_err (R D : List UInt8) (e : Err) (hR : R = "WARC/1.0".toUTF8.toList ++ 13 :: 10 :: D)
+    (hh : hlSpec (R.length + 2) "WARC/1.0".toUTF8.toList R 10 none = .error e) :
+    readSpec R = .error e := by
+  unfold readSpec
+  have hs : specLine R 0 = some ("WARC/1.0".toUTF8.toList, 8, 10) := by rw [hR]; exact specLine_version D
+  rw [hs]
+  simp only [bne_self_eq_false, Bool.false_eq_true, if_false, hh]
+
+theorem readSpec_ok (R D : List UInt8) (n c2 : Nat) (hR : R = "WARC/1.0".toUTF8.toList ++ 13 :: 10 :: D)
+    (hh : hlSpec (R.length + 2) "WARC/1.0".toUTF8.toList R 10 none = .ok (n, c2))
+    (M rest : List UInt8) (hM : R = M ++ rest) (hMl : M.length = c2 + n + 4)
+    (hterm : [13, 10, 13, 10] <:+ M) :
+    readSpec R = .record M rest := by
+  unfold readSpec
+  have hs : specLine R 0 = some ("WARC/1.0".toUTF8.toList, 8, 10) := by rw [hR]; exact specLine_version D
+  rw [hs]
+  simp only [bne_self_eq_false, Bool.false_eq_true, if_false, hh]
+  have htk : R.take (c2 + n + 4) = M := by rw [hM, ← hMl, List.take_left]
+  have hdr : R.drop (c2 + n + 4) = rest := by rw [hM, ← hMl, List.drop_left]
+  rw [if_neg (by rw [hM, List.length_append]; omega), htk, hdr]
+  obtain ⟨P, hP⟩ := hterm
+  have hPl : P.length = c2 + n + 4 - 4 := by
+    have := congrArg List.length hP
+    simp at this; omega
+  have : M.drop (c2 + n + 4 - 4) = [13, 10, 13, 10] := by rw [← hP, ← hPl, List.drop_left]
+  rw [this]
+  simp
+
+theorem readSpec_nil : readSpec [] = .eof := by
+  simp [readSpec, specLine, specLine0]
+
+theorem readAllSpec_concat {α : Type} (f : α → List UInt8) (recs : List α)
+    (hrec : ∀ r ∈ recs, ∀ rest, readSpec (f r ++ rest) = .record (f r) rest) :
+    ∀ fuel, recs.length < fuel → readAllSpec fuel (recs.flatMap f) = (recs.map f, none) := by
+  induction recs with
+  | nil =>
+    intro fuel hf
+    obtain ⟨k, rfl⟩ : ∃ k, fuel = k + 1 := ⟨fuel - 1, by omega⟩
+    rw [readAllSpec_succ]
+    simp [readSpec_nil]
+  | cons r recs ih =>
+    intro fuel hf
+    obtain ⟨k, rfl⟩ : ∃ k, fuel = k + 1 := ⟨fuel - 1, by omega⟩
+    rw [readAllSpec_succ, List.flatMap_cons, hrec r (by simp)]
+    simp only []
+    rw [ih (fun x hx => hrec x (by simp [hx])) k (by simpa using hf)]
+    simp
+
+theorem readAllSpec_error (R : List UInt8) (e : Err) (h : readSpec R = .error e) :
+    readAllSpec (R.length + 1) R = ([], some e) := by
+  rw [readAllSpec_succ, h]
+
+
+
+def OkH (h : List UInt8) : Prop := h ≠ [] ∧ (10 : UInt8) ∉ h ∧ isCL h = false
+
+/-- a well-formed record with version line `V`, key `K` and decimal length `ds`. -/
+def mkV (V : List UInt8) (hs : List (List UInt8)) (K ds body : List UInt8) : List UInt8 :=
+  V ++ [13, 10] ++ hs.flatMap (· ++ [13, 10]) ++ (K ++ 32 :: ds) ++ [13, 10] ++ [13, 10] ++ body ++ [13, 10] ++ [13, 10]
+
+theorem ver_facts (V : List UInt8) (hV : V = "WARC/1.0".toUTF8.toList) :
+    V.length = 8 ∧ V.isEmpty = false := by
+  rw [hV, ver_eq]; exact ⟨rfl, rfl⟩
+
+theorem cons_isEmpty (K rest : List UInt8) (hK : IsKey K) : (K ++ rest).isEmpty = false := by
+  have := hK.1
+  cases K with
+  | nil => simp at this
+  | cons _ _ => rfl
+
+theorem drop_of_eq (R A D : List UInt8) (k : Nat) (h : R = A ++ D) (hk : A.length = k) : R.drop k = D := by
+  rw [h, ← hk, List.drop_left]
+
+theorem hlSpec_mk (V : List UInt8) (hV : V = "WARC/1.0".toUTF8.toList) (hs : List (List UInt8))
+    (K ds D4 R : List UInt8)
+    (hok : ∀ h ∈ hs, OkH h) (hK : IsKey K) (hne : ds ≠ []) (hd : ∀ d ∈ ds, isDigit d = true)
+    (hR : R = V ++ 13 :: 10 :: (hs.flatMap (· ++ [13, 10]) ++ ((K ++ 32 :: ds) ++ 13 :: 10 :: (13 :: 10 :: D4)))) :
+    hlSpec (R.length + 2) V R 10 none
+      = .ok ((valOf false ds).toNat, 10 + (hs.flatMap (· ++ [13, 10])).length + ((K ++ 32 :: ds).length + 2) + 2) := by
+  obtain ⟨hVl, hVe⟩ := ver_facts V hV
+  have hd10 : R.drop 10 = hs.flatMap (· ++ [13, 10]) ++ ((K ++ 32 :: ds) ++ 13 :: 10 :: (13 :: 10 :: D4)) := by
+    apply drop_of_eq R (V ++ [13, 10]) _ 10 _ (by simp [hVl])
+    rw [hR]; simp only [List.append_assoc, List.cons_append, List.nil_append]
+  have hlen : hs.length + 1 ≤ R.length := by
+    have := flat_length_ge hs
+    rw [hR]; simp only [List.length_append, List.length_cons]; omega
+  obtain ⟨f, hf⟩ : ∃ f, R.length + 2 = f + 3 + hs.length := ⟨R.length - hs.length - 1, by omega⟩
+  rw [hf]
+  obtain ⟨line', l1, l2⟩ := hlSpec_headers hs (f + 3) V R 10 none _ hVe hd10 hok
+  rw [l2]
+  have hd1 := drop_add_of_drop R 10 _ _ hd10
+  rw [hlSpec_cl (f + 2) line' R _ K ds _ l1 hK hne hd hd1]
+  have hd2 := drop_add_of_drop R _ ((K ++ 32 :: ds) ++ [13, 10]) (13 :: 10 :: D4) (by rw [hd1]; simp)
+  have e2 : ((K ++ 32 :: ds) ++ [13, 10]).length = (K ++ 32 :: ds).length + 2 := by simp; omega
+  rw [e2] at hd2
+  rw [hlSpec_blank f _ R _ _ D4 (cons_isEmpty K _ hK) hd2]
+
+
+theorem readSpec_ok' (V : List UInt8) (hV : V = "WARC/1.0".toUTF8.toList) (R D : List UInt8) (n c2 : Nat)
+    (hR : R = V ++ 13 :: 10 :: D)
+    (hh : hlSpec (R.length + 2) V R 10 none = .ok (n, c2))
+    (M rest : List UInt8) (hM : R = M ++ rest) (hMl : M.length = c2 + n + 4)
+    (hterm : [13, 10, 13, 10] <:+ M) :
+    readSpec R = .record M rest := by
+  subst hV
+  exact readSpec_ok R D n c2 hR hh M rest hM hMl hterm
+
+theorem readSpec_err' (V : List UInt8) (hV : V = "WARC/1.0".toUTF8.toList) (R D : List UInt8) (e : Err)
+    (hR : R = V ++ 13 :: 10 :: D)
+    (hh : hlSpec (R.length + 2) V R 10 none = .error e) :
+    readSpec R = .error e := by
+  subst hV
+  exact readSpec_err R D e hR hh
+
+theorem readSpec_mk (V : List UInt8) (hV : V = "WARC/1.0".toUTF8.toList) (hs : List (List UInt8))
+    (K ds body rest : List UInt8)
+    (hok : ∀ h ∈ hs, OkH h) (hK : IsKey K) (hne : ds ≠ []) (hd : ∀ d ∈ ds, isDigit d = true)
+    (hn : (valOf false ds).toNat = body.length) :
+    readSpec (mkV V hs K ds body ++ rest) = .record (mkV V hs K ds body) rest := by
+  obtain ⟨hVl, hVe⟩ := ver_facts V hV
+  have hR : mkV V hs K ds body ++ rest = V ++ 13 :: 10 :: (hs.flatMap (· ++ [13, 10]) ++
+      ((K ++ 32 :: ds) ++ 13 :: 10 :: (13 :: 10 :: (body ++ [13, 10, 13, 10] ++ rest)))) := by
+    simp [mkV]
+  have hh := hlSpec_mk V hV hs K ds _ _ hok hK hne hd hR
+  apply readSpec_ok' V hV _ _ _ _ hR hh (mkV V hs K ds body) rest rfl
+  · simp [mkV, hVl, hn]; omega
+  · exact ⟨V ++ [13, 10] ++ hs.flatMap (· ++ [13, 10]) ++ (K ++ 32 :: ds) ++ [13, 10] ++ [13, 10] ++ body,
+      by simp [mkV]⟩
+
+theorem readSpec_missing (V : List UInt8) (hV : V = "WARC/1.0".toUTF8.toList) (hs : List (List UInt8))
+    (rest R : List UInt8) (hok : ∀ h ∈ hs, OkH h)
+    (hR : R = V ++ 13 :: 10 :: (hs.flatMap (· ++ [13, 10]) ++ 13 :: 10 :: rest)) :
+    readSpec R = .error .noLength := by
+  obtain ⟨hVl, hVe⟩ := ver_facts V hV
+  apply readSpec_err' V hV R _ _ hR
+  have hd10 : R.drop 10 = hs.flatMap (· ++ [13, 10]) ++ 13 :: 10 :: rest := by
+    apply drop_of_eq R (V ++ [13, 10]) _ 10 _ (by simp [hVl])
+    rw [hR]; simp only [List.append_assoc, List.cons_append, List.nil_append]
+  have hlen : hs.length + 1 ≤ R.length := by
+    have := flat_length_ge hs
+    rw [hR]; simp only [List.length_append, List.length_cons]; omega
+  obtain ⟨f, hf⟩ : ∃ f, R.length + 2 = f + 2 + hs.length := ⟨R.length - hs.length, by omega⟩
+  rw [hf]
+  obtain ⟨line', l1, l2⟩ := hlSpec_headers hs (f + 2) V R 10 none _ hVe hd10 hok
+  rw [l2]
+  have hd1 := drop_add_of_drop R 10 _ _ hd10
+  rw [hlSpec_blank f line' R _ none rest l1 hd1]
+
+theorem readSpec_negative (V : List UInt8) (hV : V = "WARC/1.0".toUTF8.toList)
+    (K ds D R : List UInt8) (hK : IsKey K) (hne : ds ≠ []) (hd : ∀ d ∈ ds, isDigit d = true)
+    (hv : valOf true ds < 0)
+    (hR : R = V ++ 13 :: 10 :: ((K ++ 32 :: 45 :: ds) ++ 13 :: 10 :: D)) :
+    readSpec R = .error .lengthParse := by
+  obtain ⟨hVl, hVe⟩ := ver_facts V hV
+  apply readSpec_err' V hV R _ _ hR
+  have hd10 : R.drop 10 = (K ++ 32 :: 45 :: ds) ++ 13 :: 10 :: D := by
+    apply drop_of_eq R (V ++ [13, 10]) _ 10 _ (by simp [hVl])
+    rw [hR]; simp only [List.append_assoc, List.cons_append, List.nil_append]
+  exact hlSpec_neg (R.length + 1) V R 10 K ds D hVe hK hne hd hv hd10
+
+theorem readSpec_duplicate (V : List UInt8) (hV : V = "WARC/1.0".toUTF8.toList)
+    (K da K' db D R : List UInt8) (hK : IsKey K) (hK' : IsKey K')
+    (hne : da ≠ []) (hd : ∀ d ∈ da, isDigit d = true) (hdb : ∀ d ∈ db, isDigit d = true)
+    (hR : R = V ++ 13 :: 10 :: ((K ++ 32 :: da) ++ 13 :: 10 :: ((K' ++ 32 :: db) ++ 13 :: 10 :: D))) :
+    readSpec R = .error .twoLengths := by
+  obtain ⟨hVl, hVe⟩ := ver_facts V hV
+  apply readSpec_err' V hV R _ _ hR
+  have hd10 : R.drop 10 = (K ++ 32 :: da) ++ 13 :: 10 :: ((K' ++ 32 :: db) ++ 13 :: 10 :: D) := by
+    apply drop_of_eq R (V ++ [13, 10]) _ 10 _ (by simp [hVl])
+    rw [hR]; simp only [List.append_assoc, List.cons_append, List.nil_append]
+  rw [show R.length + 2 = R.length + 1 + 1 by rfl, hlSpec_cl (R.length + 1) V R 10 K da _ hVe hK hne hd hd10]
+  have hd1 := drop_add_of_drop R 10 ((K ++ 32 :: da) ++ [13, 10]) ((K' ++ 32 :: db) ++ 13 :: 10 :: D) (by rw [hd10]; simp)
+  have e2 : ((K ++ 32 :: da) ++ [13, 10]).length = (K ++ 32 :: da).length + 2 := by simp; omega
+  rw [e2] at hd1
+  have h10 : (10 : UInt8) ∉ 32 :: db := by
+    have := digits_no10 [32] db (by decide) hdb
+    simpa using this
+  exact hlSpec_dup R.length _ R _ _ K' (32 :: db) D (cons_isEmpty K _ hK) hK' h10 hd1
+
+theorem readSpec_badVersion (line rest : List UInt8) (h1 : (10 : UInt8) ∉ line)
+    (h2 : line ≠ "WARC/1.0".toUTF8.toList) (h3 : line ≠ "WARC/1.0".toUTF8.toList ++ [13]) :
+    readSpec (line ++ 10 :: rest) = .error .badVersion := by
+  unfold readSpec specLine
+  rw [List.drop_zero, specLine0_lf line rest h1]
+  simp only []
+  rw [if_pos]
+  simp only [bne_iff_ne, ne_eq]
+  by_cases hl : line.getLast? = some 13
+  · have : (line.getLast? == some 13) = true := by simp [hl]
+    rw [this, if_pos rfl]
+    intro e
+    apply h3
+    have hne : line ≠ [] := by intro h0; simp [h0] at hl
+    have hdl := List.dropLast_concat_getLast hne
+    have hgl : line.getLast hne = 13 := by
+      rw [List.getLast?_eq_some_getLast hne] at hl
+      injection hl
+    rw [hgl, e] at hdl
+    exact hdl.symm
+  · have : (line.getLast? == some 13) = false := by simp [hl]
+    rw [this]
+    simpa using h2
+
+
+
+/-! ## truncation -/
+
+theorem specLine0_append (D E : List UInt8) (x : List UInt8 × Nat) (h : specLine0 D = some x) :
+    specLine0 (D ++ E) = some x := by
+  unfold specLine0 at h ⊢
+  simp only [] at h ⊢
+  split at h
+  · rename_i hlt
+    rw [tw_append_found _ D E hlt, if_pos (by rw [List.length_append]; omega),
+      List.take_append_of_le_length (by omega)]
+    exact h
+  · exact absurd h (by simp)
+
+theorem specLine_append (P E : List UInt8) (c : Nat) (x : List UInt8 × Nat × Nat)
+    (h : specLine P c = some x) : specLine (P ++ E) c = some x := by
+  have hc : c ≤ P.length := by
+    obtain ⟨l, le, c'⟩ := x
+    exact (specLine_some P l c le c' h).2.2.2.1
+  unfold specLine at h ⊢
+  rw [List.drop_append_of_le_length hc]
+  split at h
+  · exact absurd h (by simp)
+  · rename_i l n1 h0
+    rw [specLine0_append _ E _ h0]
+    exact h
+
+theorem hlSpec_prefix : ∀ (fuelP fuelR : Nat) (line P E : List UInt8) (c : Nat) (len : Option Nat) (n c2 : Nat),
+    hlSpec fuelR line (P ++ E) c len = .ok (n, c2) → c ≤ P.length →
+    (∃ e, hlSpec fuelP line P c len = .error e) ∨ (hlSpec fuelP line P c len = .ok (n, c2) ∧ c2 ≤ P.length) := by
+  intro fuelP
+  induction fuelP with
+  | zero => intro _ _ _ _ _ _ _ _ _ _; exact Or.inl ⟨_, rfl⟩
+  | succ fuelP ih =>
+    intro fuelR line P E c len n c2 h hc
+    cases fuelR with
+    | zero => exact absurd h (by simp [hlSpec])
+    | succ fR =>
+      rw [hlSpec_succ] at h ⊢
+      by_cases hline : line.isEmpty = true
+      · rw [if_pos hline] at h ⊢
+        cases len with
+        | none => exact absurd h (by simp)
+        | some m =>
+          simp only [] at h ⊢
+          injection h with h; injection h with h1 h2
+          subst h1 h2
+          exact Or.inr ⟨rfl, hc⟩
+      · rw [if_neg hline] at h ⊢
+        cases hsP : specLine P c with
+        | none => exact Or.inl ⟨_, rfl⟩
+        | some x =>
+          obtain ⟨l, le, c'⟩ := x
+          have hsR := specLine_append P E c _ hsP
+          have hc' := (specLine_some P l c le c' hsP).2.2.1
+          rw [hsR] at h
+          simp only [] at h ⊢
+          by_cases hcl : isCL l = true
+          · rw [if_pos hcl] at h ⊢
+            by_cases hlen : len.isSome = true
+            · rw [if_pos hlen] at h; exact absurd h (by simp)
+            · rw [if_neg hlen] at h ⊢
+              rw [lenVerdict_ext (P ++ E) l c le c' hsR hcl P E rfl hc']
+              cases hv : lenVerdict (P ++ E) l le with
+              | none => rw [hv] at h; exact absurd h (by simp)
+              | some v =>
+                rw [hv] at h
+                exact ih fR l P E c' (some v) n c2 h hc'
+          · rw [if_neg hcl] at h ⊢
+            exact ih fR l P E c' len n c2 h hc'
+
+theorem readSpec_record_inv (R r R' : List UInt8) (h : readSpec R = .record r R') :
+    ∃ l le c n c2, specLine R 0 = some (l, le, c) ∧ (l != "WARC/1.0".toUTF8.toList) = false ∧
+      hlSpec (R.length + 2) l R c none = .ok (n, c2) ∧ c2 + n + 4 ≤ R.length ∧
+      r = R.take (c2 + n + 4) := by
+  unfold readSpec at h
+  split at h
+  · split at h <;> exact absurd h (by simp)
+  · rename_i l le c hs
+    split at h
+    · exact absurd h (by simp)
+    · rename_i hv
+      split at h
+      · exact absurd h (by simp)
+      · rename_i n c2 hh
+        simp only [] at h
+        split at h
+        · exact absurd h (by simp)
+        · rename_i hlen
+          split at h
+          · exact absurd h (by simp)
+          · injection h with h1 h2
+            exact ⟨l, le, c, n, c2, hs, by simpa using hv, hh, by omega, h1.symm⟩
+
+/-- no proper non-empty prefix of a record is accepted. -/
+theorem readSpec_prefix_error (R r R' : List UInt8) (h : readSpec R = .record r R') (k : Nat)
+    (hk0 : 0 < k) (hk : k < r.length) : ∃ e, readSpec (R.take k) = .error e := by
+  obtain ⟨l, le, c, n, c2, hs, hv, hh, hlen, hr⟩ := readSpec_record_inv R r R' h
+  have hkt : k < c2 + n + 4 := by
+    rw [hr, List.length_take] at hk; omega
+  have hPl : (R.take k).length = k := by rw [List.length_take]; omega
+  have hPE : R.take k ++ R.drop k = R := List.take_append_drop k R
+  generalize hP : R.take k = P at *
+  generalize R.drop k = E at *
+  subst hPE
+  unfold readSpec
+  cases hsP : specLine P 0 with
+  | none =>
+    simp only []
+    have : P.isEmpty = false := by
+      cases P with
+      | nil => simp at hPl; omega
+      | cons _ _ => rfl
+    rw [this]
+    exact ⟨_, rfl⟩
+  | some x =>
+    obtain ⟨l', le', c'⟩ := x
+    have hsR := specLine_append P E 0 _ hsP
+    rw [hs] at hsR
+    injection hsR with hsR
+    injection hsR with e1 e2
+    injection e2 with e2 e3
+    subst e1 e2 e3
+    have hc' := (specLine_some P l 0 le c hsP).2.2.1
+    simp only []
+    rw [hv]
+    simp only [Bool.false_eq_true, if_false]
+    rcases hlSpec_prefix (P.length + 2) _ l P E c none n c2 hh hc' with ⟨e, he⟩ | ⟨he, _⟩
+    · rw [he]; exact ⟨_, rfl⟩
+    · rw [he]
+      simp only []
+      rw [if_pos (by omega)]
+      exact ⟨_, rfl⟩
+
+
+/-! ## literals -/
+
+def keyU : List UInt8 := [67, 111, 110, 116, 101, 110, 116, 45, 76, 101, 110, 103, 116, 104, 58]
+def keyL : List UInt8 := [99, 111, 110, 116, 101, 110, 116, 45, 108, 101, 110, 103, 116, 104, 58]
+
+theorem keyU_isKey : IsKey keyU := ⟨rfl, by decide +kernel, by decide⟩
+theorem keyL_isKey : IsKey keyL := ⟨rfl, by decide +kernel, by decide⟩
+theorem strU : "Content-Length: ".toUTF8.toList = keyU ++ [32] := by decide +kernel
+theorem strL : "content-length: ".toUTF8.toList = keyL ++ [32] := by decide +kernel
+theorem strNeg : "Content-Length: -".toUTF8.toList = keyU ++ [32, 45] := by decide +kernel
+
+theorem flatMap_length_ge {α : Type} (f : α → List UInt8) (recs : List α)
+    (h : ∀ r ∈ recs, 1 ≤ (f r).length) : recs.length ≤ (recs.flatMap f).length := by
+  induction recs with
+  | nil => simp
+  | cons r recs ih =>
+    have := h r (by simp)
+    have := ih (fun x hx => h x (by simp [hx]))
+    simp only [List.flatMap_cons, List.length_append, List.length_cons]; omega
+
+theorem okH_of (h : List UInt8) (h1 : h ≠ []) (h2 : (10 : UInt8) ∉ h)
+    (h3 : ¬ ((h.take 15).map toLowerByte = contentLengthKey)) : OkH h := by
+  refine ⟨h1, h2, ?_⟩
+  unfold isCL
+  have : ((h.take 15).map toLowerByte == contentLengthKey) = false := by simpa using h3
+  rw [this]; simp
+
+
+/-! ## saturation of `strtoll` (bodies of 2^63 bytes or more) -/
+
+theorem valOf_false_sat (ds : List UInt8) (n : Nat)
+    (h : ds.foldl (fun a c => a * 10 + (c.toNat - 48)) 0 = n) (hn : 2 ^ 63 ≤ n) :
+    (valOf false ds).toNat = 2 ^ 63 - 1 := by
+  unfold valOf
+  simp only [Bool.false_eq_true, if_false, h]
+  rw [if_pos (by omega)]
+  rfl
+
+theorem mkV_length (V : List UInt8) (hs : List (List UInt8)) (K ds body : List UInt8) :
+    (mkV V hs K ds body).length =
+      V.length + 2 + (hs.flatMap (· ++ [13, 10])).length + ((K ++ 32 :: ds).length + 2) + 2 + body.length + 4 := by
+  simp only [mkV, List.length_append, List.length_cons, List.length_nil]
+  omega
+
+theorem readSpec_mk_sat (V : List UInt8) (hV : V = "WARC/1.0".toUTF8.toList)
+    (K ds body R' : List UInt8) (hK : IsKey K) (hne : ds ≠ []) (hd : ∀ d ∈ ds, isDigit d = true)
+    (hsat : (valOf false ds).toNat < body.length) :
+    readSpec (mkV V [] K ds body) ≠ .record (mkV V [] K ds body) R' := by
+  intro h
+  obtain ⟨hVl, hVe⟩ := ver_facts V hV
+  have hR : mkV V [] K ds body = V ++ 13 :: 10 :: (([] : List (List UInt8)).flatMap (· ++ [13, 10]) ++
+      ((K ++ 32 :: ds) ++ 13 :: 10 :: (13 :: 10 :: (body ++ [13, 10, 13, 10])))) := by
+    simp [mkV]
+  have hh := hlSpec_mk V hV [] K ds _ _ (by simp) hK hne hd hR
+  obtain ⟨l, le, c, n, c2, hs, hv, hh', hlen, hr⟩ := readSpec_record_inv _ _ _ h
+  have hsv : specLine (mkV V [] K ds body) 0 = some (V, 8, 10) := by
+    rw [hR, hV]; exact specLine_version _
+  rw [hs] at hsv
+  injection hsv with hsv
+  injection hsv with e1 e2
+  injection e2 with e2 e3
+  subst e1 e3
+  rw [hh] at hh'
+  injection hh' with hh'
+  injection hh' with e4 e5
+  have hl := congrArg List.length hr
+  rw [List.length_take, Nat.min_eq_left hlen, mkV_length] at hl
+  rw [mkV_length] at hlen
+  simp only [List.flatMap_nil, List.length_nil] at hl e5
+  omega
+
+
+theorem readAllSpec_single (M : List UInt8) (h : readSpec M = .record M []) :
+    readAllSpec (M.length + 1) M = ([M], none) := by
+  have h4 := (readSpec_record M M [] h).2.1
+  obtain ⟨k, hk⟩ : ∃ k, M.length = k + 1 := ⟨M.length - 1, by omega⟩
+  rw [readAllSpec_succ, h, hk]
+  simp only []
+  rw [readAllSpec_succ, readSpec_nil]
 
 end PV.Lemmas.Warc
